@@ -35,3 +35,22 @@ Theorem c12_fits_main_tag : forall W src t1 t2 b,
   forall s t, In (Str s t) (tv l) -> t = t1.
 Proof. exact PreProof.c12_fits_main_tag. Qed.
 Print Assumptions c12_fits_main_tag.
+
+(* ---------- the cut case (Proofs/PreCut.v) ----------
+   Whatever the source, a preformatted block at width W >= 1 either is too narrow (a character
+   wider than W) or yields pieces no wider than W whose non-space characters are exactly the
+   source's, in order.  The continuation tags of the pieces are judged by the checker (recorded
+   finding pre_moved_word_first_tag). *)
+From H2T Require Import Proofs.Conserve Proofs.PreCut.
+Theorem c12_cut_pieces : forall W src t1 t2,
+  1 <= W ->
+  match pre_lines W src t1 t2 with
+  | Ok ls =>
+      (forall l, In l ls -> swidth l <= W) /\
+      filter (fun c => negb (ws c)) (concat ls) = kept src
+  | TooNarrow => True
+  | Panic _ => False
+  | OutOfFuel => False
+  end.
+Proof. exact PreCut.c12_cut_pieces. Qed.
+Print Assumptions c12_cut_pieces.
